@@ -33,6 +33,7 @@ func c07(c *Ctx) {
 	c07R7(c, "R7")
 	sConfigClone(c, "R7/S-CFGCLONE")
 	sConfigCodec(c, "R8/S-CFGCODEC")
+	c07R9(c, "R9")
 	sState(c, "R7/S-STATE")
 }
 
@@ -529,5 +530,67 @@ func sVoterOnlyBallots(c *Ctx, rule string) {
 				c.RequireAt(r, rule, x.fn+":self-ballot-voters-only", in, "the own ballot is cast only as a voter", func(v engine.View) bool { return v.T("voter") })
 			}
 		})
+	}
+}
+
+
+// c07R9: a leader whose newly committed configuration no longer gives it a
+// vote (removed OR demoted) gives up leadership in that same pass of the
+// commit arm; the test must be about the vote, not mere membership.
+func c07R9(c *Ctx, rule string) {
+	fn := c.Fn(rule, "(*Raft).leaderLoop")
+	if fn == nil {
+		return
+	}
+	var sel *ssa.Select
+	commitCase := -1
+	engine.EachInstr(fn, func(in ssa.Instruction) {
+		if s, ok := in.(*ssa.Select); ok && len(s.States) > 8 {
+			for k, st := range s.States {
+				if st.Dir == types.RecvOnly && c.P.D(st.Chan) == "recv.leaderState.commitCh" {
+					sel, commitCase = s, k
+				}
+			}
+		}
+	})
+	if sel == nil {
+		c.Bad(rule, "leaderLoop:commit-arm", c.P.Pos(fn.Pos()), "a select case receiving from leaderState.commitCh", "not found")
+		return
+	}
+	arm := engine.SelectArmEntry(sel, commitCase)
+	if arm == nil {
+		c.Bad(rule, "leaderLoop:commit-arm", c.P.InstrPos(sel), "the commit arm's entry block", "not recognised")
+		return
+	}
+	r := c.Run(&engine.Automaton{Fn: fn, StartBlock: arm, StopAt: isSelect, Tracks: []engine.Track{
+		engine.Event("newCommitted", c.P.IsCallTo(engine.Is("(*Raft).setCommittedConfiguration")), "voter"),
+		engine.PredBool("voter", DescIs("hasVote(recv.configurations.committed, recv.localID)")),
+		engine.Event("left", func(in ssa.Instruction) bool {
+			cc := engine.CallCommonOf(in)
+			if cc == nil {
+				return false
+			}
+			n := c.P.CalleeName(cc)
+			return (n == "(*Raft).setState" && c.P.Arg(in, 0) == "Follower") || n == "(*Raft).Shutdown"
+		}),
+	}})
+	n := len(c.P.CallsIn(fn, engine.Is("(*Raft).setCommittedConfiguration")))
+	sites := []ssa.Instruction{sel}
+	for _, ret := range engine.ReturnsOf(fn) {
+		sites = append(sites, ret)
+	}
+	for i, s := range sites {
+		if len(r.StatesAt(s)) == 0 {
+			continue
+		}
+		c.RequireAt(r, rule, fmt.Sprintf("leaderLoop:leader-without-vote-leaves#%d", i+1), s, "once a configuration was marked committed in the commit arm, hasVote(committed, localID) was evaluated on the new value, and when it is false the pass ends with setState(Follower) or Shutdown before the next select", func(v engine.View) bool {
+			if !v.Seen("newCommitted") {
+				return true
+			}
+			return v.T("voter") || (v.F("voter") && v.Seen("left"))
+		})
+	}
+	if n == 0 {
+		c.Bad(rule, "leaderLoop:marks-committed", c.P.Pos(fn.Pos()), "the commit arm calls setCommittedConfiguration", "no call")
 	}
 }
